@@ -527,3 +527,154 @@ def modified_output_operands(node):
         if d[0] == "reg":
             written.add(SUB.get(d[1], (d[1], 8))[0])
     return {k for k in range(nout) if regs[k] in written}
+
+
+# ------------------------------------------------------------------------------ strip-mined element-wise kernels
+WIDTH_OF_MOVE = {"ymm": 32, "xmm": 16}
+
+
+def _blocks(items):
+    """split an item list at labels: [(label or None, [Ins...])]"""
+    out, cur, lab = [], [], None
+    for it in items:
+        if isinstance(it, tuple):
+            if it[0] == "label":
+                out.append((lab, cur))
+                cur, lab = [], it[1]
+            continue
+        cur.append(it)
+    out.append((lab, cur))
+    return out
+
+
+def _lane_dataflow(body, ptr_dst, ptr_src):
+    """symbolic value stored through ptr_dst by a straight-line block: registers hold 'r' (loaded from dst),
+    'a' (loaded from src) or ('-', x, y) / ('+', x, y).  -> (stored value, store width in bytes) or None"""
+    val = {}
+    stored = None
+    for ins in body:
+        op, args = ins.op, ins.args
+        if op in ("vmovdqu", "vmovdqa", "vmovupd", "vmovapd", "movq", "movl", "vmovd") and len(args) == 2:
+            s, d = args
+            if s[0] == "mem" and d[0] == "reg":
+                if s[2] == ptr_dst and s[1] == 0 and s[3] is None:
+                    val[d[1]] = "r"
+                elif s[2] == ptr_src and s[1] == 0 and s[3] is None:
+                    val[d[1]] = "a"
+                else:
+                    val[d[1]] = "?"
+            elif s[0] == "reg" and d[0] == "mem":
+                if d[2] == ptr_dst and d[1] == 0 and d[3] is None:
+                    w = 4 if op == "movl" else 8 if op == "movq" else WIDTH_OF_MOVE.get(s[1][:3], 0)
+                    stored = (val.get(s[1], "?"), w)
+                else:
+                    return None        # a store somewhere else
+            elif s[0] == "reg" and d[0] == "reg":
+                val[d[1]] = val.get(s[1], "?")
+        elif op in ("vpsubd", "vpaddd") and len(args) == 3:
+            # AT&T: op src2, src1, dst  ->  dst = src1 (op) src2
+            s2, s1, d = args
+            if all(a[0] == "reg" for a in args):
+                val[d[1]] = ("-" if op == "vpsubd" else "+", val.get(s1[1], "?"), val.get(s2[1], "?"))
+        elif op in ("psubd", "paddd", "subl", "addl", "subq", "addq") and len(args) == 2 and args[0][0] == "reg" and args[1][0] == "reg":
+            s, d = args
+            if d[1] in val or s[1] in val:
+                val[d[1]] = ("-" if op.startswith(("psub", "sub")) else "+", val.get(d[1], "?"), val.get(s[1], "?"))
+    return stored
+
+
+def classify_stripmined(items, regs_init):
+    """Classify an element-wise kernel  dst[i] = dst[i] (op) src[i], i < n, written as a main vector loop plus
+    power-of-two tails.  regs_init: register -> role in {"dst","src","n"}.
+    Returns dict(ok=bool, problems=[...], facts={...})."""
+    pd, ps, rn = regs_init.get("dst"), regs_init.get("src"), regs_init.get("n")
+    problems, facts = [], {}
+    blocks = _blocks(items)
+    # prologue: n0 = n & ~(W-1), end = src + 4*n0
+    pro = blocks[0][1]
+    n0reg, endreg, W = None, None, None
+    cpy = {}
+    guard = False
+    for ins in pro:
+        if ins.op == "movq" and ins.args[0] == ("reg", rn) and ins.args[1][0] == "reg":
+            cpy[ins.args[1][1]] = "n"
+        elif ins.op == "andq" and ins.args[0][0] == "imm" and ins.args[1][0] == "reg" and cpy.get(ins.args[1][1]) == "n":
+            mask = ins.args[0][1] & 0xFFFFFFFFFFFFFFFF
+            low = (~mask) & 0xFFFFFFFFFFFFFFFF
+            if low & (low + 1) == 0:
+                W = low + 1
+                n0reg = ins.args[1][1]
+                cpy[n0reg] = "n0"
+        elif ins.op == "leaq" and ins.args[0][0] == "mem" and ins.args[0][2] == ps and ins.args[0][3] == n0reg and ins.args[0][4] == 4:
+            endreg = ins.args[1][1]
+        elif ins.op in ("testq", "cmpq") and n0reg and any(a == ("reg", n0reg) for a in ins.args):
+            guard = "pending"
+        elif ins.op in ("jz", "je", "jbe") and guard == "pending":
+            guard = ins.args[0][1]
+    facts["main_width"] = W
+    if W is None or endreg is None:
+        return {"ok": False, "problems": ["prologue not recognised (expected n0 = n & ~(W-1) and end = src + 4*n0)"], "facts": facts}
+    # main loop = first labelled block ending in a backward conditional jump
+    lab, body = blocks[1]
+    facts["main_label"] = lab
+    last = body[-1] if body else None
+    cmpi = next((i for i in body if i.op == "cmpq"), None)
+    strides = pointer_strides(body)
+    is_loop = last is not None and last.op in JCC and last.args[0][1].rstrip("b") == lab
+    if not is_loop or cmpi is None:
+        return {"ok": False, "problems": ["main loop not recognised"], "facts": facts}
+    if not (cmpi.args[0] == ("reg", endreg) and cmpi.args[1] == ("reg", ps) and last.op == "jb"):
+        problems.append("main loop exit test is not 'src < end'")
+    st = _lane_dataflow(body, pd, ps)
+    if st is None or st[1] != 4 * W:
+        problems.append("main loop does not store one %d-lane vector through dst (%s)" % (W, st))
+    if strides.get(pd) != 4 * W or strides.get(ps) != 4 * W:
+        problems.append("main loop strides %s differ from the vector width %d bytes" % (strides, 4 * W))
+    facts["op"] = st[0] if st else None
+    # top-tested or guarded?
+    guarded = guard not in (False, "pending")
+    facts["main_loop_guarded"] = guarded
+    if not guarded:
+        problems.append("UNGUARDED: the bottom-tested %d-lane loop runs once when n < %d (n0 = 0): it processes [0,%d) and the tails "
+                        "process the same n operands again; witness n = 1" % (W, W, W))
+    # remainder and tails
+    rest = blocks[2:]
+    tail_widths = []
+    rem_ok = False
+    for lab2, b in rest:
+        for ins in b:
+            if ins.op == "subq" and ins.args[0] == ("reg", n0reg) and ins.args[1] == ("reg", rn):
+                rem_ok = True
+        c = next((i for i in b if i.op == "cmpq" and i.args[0][0] == "imm" and i.args[1] == ("reg", rn)), None)
+        if c is None:
+            continue
+        w = c.args[0][1]
+        j = next((i for i in b if i.op == "jb"), None)
+        idx = b.index(c)
+        blk = b[idx + 1:]
+        if j is None:
+            problems.append("tail for width %s has no 'rem < w' skip" % w)
+            continue
+        blk = [i for i in blk if i is not j]
+        stt = _lane_dataflow(blk, pd, ps)
+        strd = pointer_strides(blk)
+        tail_widths.append(w)
+        if stt is None or stt[1] != 4 * w:
+            problems.append("tail %s stores %s bytes, expected %d" % (w, stt[1] if stt else None, 4 * w))
+        elif stt[0] != facts["op"]:
+            problems.append("tail %s computes %s, main loop computes %s" % (w, stt[0], facts["op"]))
+        if w != 1 and (strd.get(pd) != 4 * w or strd.get(ps) != 4 * w):
+            problems.append("tail %s advances pointers by %s, expected %d" % (w, strd, 4 * w))
+        if w != 1 and strd.get(rn) != -w:
+            problems.append("tail %s does not subtract %s from the remainder" % (w, w))
+    facts["tails"] = tail_widths
+    if not rem_ok:
+        problems.append("remainder n - n0 is not computed before the tails")
+    want = []
+    w = W // 2
+    while w >= 1:
+        want.append(w)
+        w //= 2
+    if tail_widths != want:
+        problems.append("tail widths %s do not cover every remainder in [0,%d): expected %s" % (tail_widths, W, want))
+    return {"ok": not problems, "problems": problems, "facts": facts}
